@@ -200,13 +200,15 @@ func (m *Machine) typeAssert(c *Config, x *ssa.TypeAssert) Value {
 	case toIface:
 		// assertion to an interface type: implementation relation is uninterpreted
 		st.abstract = true
-		var typ Term
-		if t.Sort == SIface {
-			typ = app(SRT, "i.type", t)
-		} else {
-			typ = app(SRT, "o.type", t)
+		switch t.Sort {
+		case SIface:
+			okT = And(Not(Eq(t, m.zeroTerm(t.Sort))), app(SBool, "rt.implements", app(SRT, "i.type", t), m.typeConstant(at)))
+		case "Opaque":
+			okT = And(Not(Eq(t, m.zeroTerm(t.Sort))), app(SBool, "rt.implements", app(SRT, "o.type", t), m.typeConstant(at)))
+		default:
+			// an error value (or another interface kept as one term): whether its dynamic type has the methods is unknown
+			okT = And(Not(Eq(t, m.zeroTerm(t.Sort))), m.syms.fresh("implements", SBool))
 		}
-		okT = And(Not(Eq(t, m.zeroTerm(t.Sort))), app(SBool, "rt.implements", typ, m.typeConstant(at)))
 		s := m.sortOf(at)
 		r := m.syms.fresh("asserted", s)
 		if pv, ok := m.ifacePayload[t.S]; ok {
@@ -409,7 +411,8 @@ func (m *Machine) mapState(st *State, ref Term, t types.Type) *mapContent {
 		size:  app(SBV64, "map.size0", ref),
 		ksort: ks, vsort: vs,
 	}
-	if _, fresh := st.ghost["@mapfresh:"+ref.S]; fresh {
+	_, all := st.ghost["@maphavocall"]
+	if _, fresh := st.ghost["@mapfresh:"+ref.S]; fresh || all {
 		mc.has = m.syms.fresh("map.has", ArraySort(ks, SBool))
 		mc.get = m.syms.fresh("map.get", ArraySort(ks, vs))
 		mc.size = m.syms.fresh("map.size", SBV64)
@@ -486,6 +489,21 @@ func (m *Machine) valueAsTerm(st *State, v Value, s Sort) Term {
 		return app(s, "mkrefelem", sv.F[0].(Term), sv.F[1].(Term))
 	}
 	return m.packTerm(st, v, s)
+}
+
+// mapDelete: delete(m, k) - no-op on a nil map or a missing key
+func (m *Machine) mapDelete(c *Config, mv, kv ssa.Value) {
+	st := c.st
+	ref := m.termOf(c, mv)
+	old := m.mapState(st, ref, mv.Type())
+	k := m.mapKeyTerm(st, m.operand(c, kv), old.ksort)
+	had := And(Not(Eq(ref, Sym("map.nil", "MapRef"))), Select(old.has, k))
+	st.ghost["@map:"+ref.S] = &mapContent{
+		has:   Store(old.has, k, TFalse),
+		get:   old.get,
+		size:  Ite(had, BVSub(old.size, BVLitI(1, 64)), old.size),
+		ksort: old.ksort, vsort: old.vsort,
+	}
 }
 
 func (m *Machine) lookup(c *Config, x *ssa.Lookup) Value {
@@ -636,14 +654,69 @@ func (m *Machine) zeroValueSafe(t types.Type) Value {
 	return m.zeroValue(t)
 }
 
+// IterV is the iterator of a range over a map or a string.  Nothing is known about the order or the number of
+// iterations: every Next yields an arbitrary "more" flag and, when true, an arbitrary entry of the map as it is
+// at that moment (an arbitrary position and rune of the string).  That over-approximates every real iteration.
+type IterV struct {
+	X   ssa.Value
+	Src Value
+}
+
 func (m *Machine) rangeOp(c *Config, x *ssa.Range) Value {
-	m.unsup("range over map/string")
-	return nil
+	return &IterV{X: x.X, Src: m.operand(c, x.X)}
 }
 
 func (m *Machine) nextOp(c *Config, x *ssa.Next) (Value, []*Config) {
-	m.unsup("next")
-	return nil, nil
+	it, ok := m.operand(c, x.Iter).(*IterV)
+	if !ok {
+		m.unsup("next on an unknown iterator")
+	}
+	st := c.st
+	more := m.syms.fresh("range.more", SBool)
+	tup := x.Type().(*types.Tuple)
+	valid := func(t types.Type) bool {
+		b, isB := t.(*types.Basic)
+		return !(isB && b.Kind() == types.Invalid)
+	}
+	if x.IsString {
+		s := it.Src.(Term)
+		idx := m.syms.fresh("range.i", SBV64)
+		st.assume(Implies(more, And(BVSge(idx, BVLitI(0, 64)), BVSlt(idx, app(SBV64, "s.len", s)))))
+		var r Value
+		if valid(tup.At(2).Type()) {
+			r = m.syms.fresh("range.r", SBV32)
+		}
+		return Tuple{more, idx, r}, nil
+	}
+	mt := it.X.Type().Underlying().(*types.Map)
+	ref := it.Src.(Term)
+	mc := m.mapState(st, ref, it.X.Type())
+	var key, val Value
+	if m.sortOf(mt.Key()) == mc.ksort {
+		k := m.syms.fresh("range.k", mc.ksort)
+		st.assume(Implies(more, And(Not(Eq(ref, Sym("map.nil", "MapRef"))), Select(mc.has, k))))
+		key = k
+		if valid(tup.At(2).Type()) {
+			if m.sortOf(mt.Elem()) == mc.vsort {
+				val = Select(mc.get, k)
+			} else {
+				st.abstract = true
+				val = m.freshValue("range.v", mt.Elem())
+			}
+		}
+	} else {
+		st.abstract = true
+		if valid(tup.At(1).Type()) {
+			key = m.freshValue("range.k", mt.Key())
+		}
+		if valid(tup.At(2).Type()) {
+			val = m.freshValue("range.v", mt.Elem())
+		}
+	}
+	if !valid(tup.At(1).Type()) {
+		key = nil
+	}
+	return Tuple{more, key, val}, nil
 }
 
 // typeByString resolves the type names contracts may mention in istype().
